@@ -1470,7 +1470,10 @@ def history(ctx, L, cid, entry, case, cont, k, scale=1.0):
                         continue
                     v_ = Aobj[nm_]
                     if isinstance(v_, np.ndarray) and v_.ndim >= 1 and v_.dtype.kind == 'f':
-                        spoils = [v_[..., :-1].copy() if v_.shape[-1] > 1 else None, np.full_like(v_, np.nan), np.zeros_like(v_), v_[None].copy(), 'abc']
+                        one_nan = v_.copy(); one_nan.flat[0] = np.nan
+                        one_inf = v_.copy(); one_inf.flat[-1] = np.inf
+                        zero_row = v_.copy(); zero_row[-1 if v_.ndim > 1 else slice(None)] = 0.0
+                        spoils = [v_[..., :-1].copy() if v_.shape[-1] > 1 else None, np.full_like(v_, np.nan), np.zeros_like(v_), v_[None].copy(), 'abc', one_nan, one_inf, zero_row]
                     elif isinstance(v_, float):
                         spoils = [float('nan'), 1e9, -1e9, 'abc', None, np.float32(v_)]
                     else:
@@ -1479,9 +1482,14 @@ def history(ctx, L, cid, entry, case, cont, k, scale=1.0):
                         if sp_ is None and not isinstance(v_, float):
                             continue
                         B_ = dict(Aobj); B_[nm_] = sp_
+                        sp0 = freeze(sp_) if isinstance(sp_, np.ndarray) else None
                         r_ = _invoke(case['call'], B_)
                         ctx.outcome(('spoiled-call', r_[0]))
                         ctx.transitions += 1
+                        # the degenerate argument (NaN / inf / zero elements, wrong shape) is the caller's array too: answered or refused, it is left as it was
+                        if sp0 is not None and nm_ not in exempt and freeze(sp_) != sp0 and ('spoiled', nm_) not in flagged:
+                            flagged.add(('spoiled', nm_))
+                            ctx.fail(f'{cid} modifies its argument {nm_}', f'{key0} argument with NaN / inf / zero elements or another shape', render(sp_), 'left as it was', 0)
                 for n in judged:                                 # (a spoiled call must not have modified the caller's other arguments either)
                     if freeze(Aobj[n]) != before[n] and n not in flagged:
                         flagged.add(n)
